@@ -4,10 +4,10 @@ package report
 
 import (
 	"bufio"
-	"os/exec"
 	"encoding/json"
 	"fmt"
 	"os"
+	"os/exec"
 	"path/filepath"
 	"sort"
 	"strconv"
@@ -177,9 +177,9 @@ func (r *Run) Set(key string, v any) {
 	r.mu.Unlock()
 }
 
-func (r *Run) Rule(s string)            { r.rule = s }
-func (r *Run) Assume(s ...string)       { r.assumptions = append(r.assumptions, s...) }
-func (r *Run) Exhaustive(b bool)        { r.exhaustive = &b }
+func (r *Run) Rule(s string)      { r.rule = s }
+func (r *Run) Assume(s ...string) { r.assumptions = append(r.assumptions, s...) }
+func (r *Run) Exhaustive(b bool)  { r.exhaustive = &b }
 func (r *Run) Inconclusive(why string) {
 	r.mu.Lock()
 	r.inconclusive = append(r.inconclusive, why)
